@@ -140,7 +140,16 @@ def load_known():
 def finish(ctx, level, t0, checker_cmd, extra_cov=None, trusted=None):
     """floors, known-finding matching, evidence file, exit code"""
     prop = ctx.prop
-    # floors: a rule that matched fewer instances than confirmed by hand is broken analysis
+    # floors: a rule that matched fewer instances than confirmed on the pinned tree is broken analysis
+    fl_path = os.path.join(VERIF, 'tsa', 'tables', 'floors.json')
+    if os.path.exists(fl_path):
+        try:
+            table = json.load(open(fl_path)).get('floors', {})
+        except Exception as e:
+            raise AnalysisBroken('floors.json unreadable: %s' % e)
+        for rid, r in ctx.rules.items():
+            if rid in table:
+                r['floor'] = table[rid]
     for rid, r in ctx.rules.items():
         if r['instances'] < r['floor'] and r['violations'] == 0:
             raise AnalysisBroken('%s: rule %s matched %d instance(s), floor is %d (%s)'
